@@ -170,7 +170,8 @@ def check_flows(ctx, dct, wr, pr, rp, num=2):
                    detail=f"{norm.U(v) if v is not None else None}")
         if segn:
             sd = le.get(segn)
-            oks = sd is not None and norm.U(norm.subst(sd, le)) in ("operator.get_segments()[0]", "operator.values[0]")
+            ovn = lp.target.elts[1].id if lp is not None and isinstance(lp.target, ast.Tuple) and len(lp.target.elts) == 2 and isinstance(lp.target.elts[1], ast.Name) else "operator"
+            oks = sd is not None and norm.U(norm.subst(sd, le)) in (f"{ovn}.get_segments()[0]", f"{ovn}.values[0]")
             lens = [n for n in ast.walk(lp) if isinstance(n, ast.If) and "len(" in norm.U(n.test) and any(isinstance(x, ast.Raise) for x in n.body)]
             ctx.ob(num, "K6", "the segment written is the operator's single segment (operators with another number of segments are refused)", oks and bool(lens), tr, ys[0],
                    construct="segment = operator.get_segments()[0]", detail=f"{segn} = {norm.U(sd) if sd is not None else None}; segment-count refusal: {bool(lens)}")
@@ -251,7 +252,8 @@ def check_flows(ctx, dct, wr, pr, rp, num=2):
             okpar = False
             for n in pdefs:
                 v = n.value
-                if isinstance(v, ast.ListComp) and len(v.generators) == 1 and isinstance(v.elt, ast.Subscript) and norm.U(v.elt.value) == D and norm.is_name(v.elt.slice, v.generators[0].target.id):
+                if isinstance(v, ast.ListComp) and len(v.generators) == 1 and not v.generators[0].ifs and isinstance(v.elt, ast.Subscript) and norm.U(v.elt.value) == D \
+                        and norm.is_name(v.elt.slice, v.generators[0].target.id):
                     src = v.generators[0].iter
                     srcd = le.get(src.id, [None])[0] if isinstance(src, ast.Name) else None
                     if srcd is not None and ".split(';')" in norm.U(srcd.value) and f"{rv}.parents" in norm.U(srcd.value):
